@@ -10,7 +10,8 @@ WEIGHTS = dict(c01.WEIGHTS)
 WEIGHTS.update({"def.remove_port": 5, "port.remove_pin": 4, "inst.reference=": 6, "inst.del_reference": 2,
                 "def.create_child": 4, "def.create_port": 3, "def.create_cable": 3, "el.set": 4,
                 "el.pop": 3, "el.del": 3, "el.name=": 4, "el.del_name": 2, "nl.top=": 3,
-                "nl.set_top_instance": 2, "wire.connect_pin": 9, "el.clone": 0})
+                "nl.set_top_instance": 2, "wire.connect_pin": 9, "el.clone": 0, "el.clone_container": 0,
+                "ns.default=": 2})
 
 
 def pinkey(p):
